@@ -2,8 +2,8 @@
 import runner_props
 
 PROP = "C05"
-LEAN_MODULES = ["PamsProps.C05", "PamsProps.SimE2E", "PamsProps.SimE2E", "PamsProps.SrcLedger"]
-NAMESPACES = ["Pams.C05", "Pams.C05", "Pams.SimDemo", "Pams.C05"]
+LEAN_MODULES = ["PamsProps.C05", "PamsProps.SimE2E", "PamsProps.SimE2E", "PamsProps.SrcLedger", "PamsProps.SrcRunner"]
+NAMESPACES = ["Pams.C05", "Pams.C05", "Pams.SimDemo", "Pams.C05", "Pams.C05"]
 DRIVERS = ["Runner", "Pure", "Sim", "PyRun"]
 TRUSTED = [
     "scheduler model treats markets, agents, user events and random draws as oracles (tape recorded from the real run through public extension points: simulator_class, registered agent/market/event classes, prng subclass, Logger subclass)",
@@ -59,7 +59,7 @@ def run(ctx, model_available=True):
                                          "impl": [exp[i] for i in bad[:3]], "input": inp})
             res["comparisons"]["ledger_folds_compared_bitwise"] = n
     import py_checks
-    return py_checks.merge(res, ctx, ["ledger"], n_each=60, model_available=model_available)
+    return py_checks.merge(res, ctx, ["ledger", "runner"], n_each=60, model_available=model_available)
 
 
 def search(ctx, res):
